@@ -24,12 +24,21 @@ class HarnessPanic(Exception):
         self.cmd, self.msg = cmd, msg
 
 
+def _limit_harness_memory():
+    # the harness (with the code under test inside) may not take the machine down: an unbounded allocation fails inside
+    # the child, which then dies and is reported like a panic
+    import resource
+    resource.setrlimit(resource.RLIMIT_AS, (24 << 30, 24 << 30))
+
+
 def sh(cmd, timeout=1800, env=None, cwd=None, check=True):
     e = dict(os.environ)
     if env:
         e.update(env)
+    is_wv = (not isinstance(cmd, str)) and os.path.basename(cmd[0]) == "wv"
     try:
-        p = subprocess.run(cmd, shell=isinstance(cmd, str), stdout=subprocess.PIPE, stderr=subprocess.STDOUT, text=True, timeout=timeout, env=e, cwd=cwd)
+        p = subprocess.run(cmd, shell=isinstance(cmd, str), stdout=subprocess.PIPE, stderr=subprocess.STDOUT, text=True, timeout=timeout, env=e, cwd=cwd,
+                           preexec_fn=_limit_harness_memory if is_wv else None)
     except subprocess.TimeoutExpired:
         raise ToolError("timeout: %s" % (cmd if isinstance(cmd, str) else " ".join(cmd)))
     if check and ((p.returncode == 101 and "WV-PANIC" in p.stdout) or p.returncode in (-6, -11, 134, 139)) and not isinstance(cmd, str) and os.path.basename(cmd[0]) == "wv":
